@@ -1,4 +1,5 @@
 import math
+import operator
 
 import numpy as np
 
@@ -93,6 +94,7 @@ def average_mutual_information(cellular_automaton, temporal_distance=1):
     num_timesteps, num_cols = cellular_automaton.shape[0], cellular_automaton.shape[1]
     if not (0 < temporal_distance < num_timesteps):
         raise ValueError("the temporal distance must be greater than 0 and less than the number of time steps")
+    temporal_distance = operator.index(temporal_distance)
     mutual_informations = []
     for i in range(0, num_cols):
         cell_states_over_time = [str(x) for x in cellular_automaton[:, i]]
